@@ -205,6 +205,13 @@ func runC05(t *Trace, r *Rng, tier string, _ []string) {
 			"unsafe_batch":           true,
 			"scorchPersisterOptions": map[string]interface{}{"NumPersisterWorkers": 3, "MaxSizeInMemoryMergePerWorker": 1 << 20},
 			"scorchMergePlanOptions": smallMerge}, settle)
+		// several flush groups per persister round: two workers, a group is closed as soon as it holds two
+		// segments, and the persister naps so that segments pile up in memory
+		mk("disk-2workers-small-groups-unsafe", "random", true, map[string]interface{}{
+			"unsafe_batch": true,
+			"scorchPersisterOptions": map[string]interface{}{"NumPersisterWorkers": 2, "MaxSizeInMemoryMergePerWorker": 1,
+				"PersisterNapTimeMSec": 40, "PersisterNapUnderNumFiles": 1000},
+			"scorchMergePlanOptions": smallMerge}, settle)
 		zv := 15 + h%3
 		mk(fmt.Sprintf("disk-zap%d", zv), "random", true, map[string]interface{}{"forceSegmentType": "zap", "forceSegmentVersion": zv}, nil)
 
